@@ -2,6 +2,8 @@ import Pandora.Drv.Util
 import Pandora.Spec.C02Flat
 import Pandora.Model.C02Par
 import Pandora.Model.C02Cb
+import Pandora.Model.C02Huge
+import Pandora.Model.C02LeafPar
 
 /-!
 C02 driver.  For every case line: the MODEL's prediction of the observation (sequential: `seqRun` on the object
@@ -159,6 +161,94 @@ def handleSeq (kv : List (String × String)) (impl : String) : String × String 
       (if impl == "INCONCLUSIVE" then "-" else m, verdict)
   | _ => ("-", "fail:driver:unparsable tree")
 
+/-! ### mode=seq huge=1: parts with huge token counts, offsets run-length encoded (`first*count`, `first+step*count`)
+
+The prediction is `seqRun` on the object `hbuild` makes for the run tree — the same generic composite over run leaves —
+and by `C02_huge_refines` that IS what the flat spec says for the expanded tree (which cannot be written down), so
+the verdict compares the implementation's observation with it. -/
+
+def takeRun (cs : List Char) : Option (Run × List Char) := do
+  let (a, r) ← takeInt cs
+  match r with
+  | '*' :: r =>
+    let (c, r) ← takeInt r
+    pure (⟨a, 0, c.toNat⟩, r)
+  | '+' :: r =>
+    let (d, r) ← takeInt r
+    match r with
+    | '*' :: r =>
+      let (c, r) ← takeInt r
+      pure (⟨a, d, c.toNat⟩, r)
+    | _ => none
+  | _ => pure (⟨a, 0, 1⟩, r)
+
+def takeRuns : Nat → List Char → List Run → Option (List Run × List Char)
+  | 0, _, _ => none
+  | fuel + 1, cs, acc =>
+    match cs with
+    | ']' :: r => some (acc.reverse, r)
+    | ',' :: r => takeRuns fuel r acc
+    | _ => match takeRun cs with
+      | some (v, r) => takeRuns fuel r (v :: acc)
+      | none => none
+
+mutual
+def hparseTree : Nat → List Char → Option (HTree × List Char)
+  | 0, _ => none
+  | fuel + 1, cs =>
+    match cs with
+    | 'F' :: r => do
+        let (dur, r) ← takeInt r
+        match r with
+        | '[' :: r =>
+            let (runs, r) ← takeRuns (r.length + 1) r []
+            pure (HTree.fin runs dur, skipBraces r)
+        | _ => none
+    | 'U' :: r => do
+        let (dur, r) ← takeInt r
+        pure (HTree.unl dur, skipBraces r)
+    | 'I' :: r => do
+        let (frm, r) ← takeInt r
+        let (to, r) ← takeInt (r.drop 1)
+        let (step, r) ← takeInt (r.drop 1)
+        let (dur, r) ← takeInt (r.drop 1)
+        pure (hinstanceStepTree frm.toNat to.toNat step.toNat dur, skipBraces r)
+    | 'C' :: '(' :: r => do
+        let (kids, r) ← hparseKids fuel r []
+        pure (HTree.comp kids, skipBraces r)
+    | _ => none
+def hparseKids : Nat → List Char → List HTree → Option (List HTree × List Char)
+  | 0, _, _ => none
+  | fuel + 1, cs, acc =>
+    match cs with
+    | ')' :: r => some (acc.reverse, r)
+    | ';' :: r => hparseKids fuel r acc
+    | _ => match hparseTree fuel cs with
+      | some (t, r) => hparseKids fuel r (t :: acc)
+      | none => none
+end
+
+def handleHuge (kv : List (String × String)) (impl : String) : String × String :=
+  let treeS := getS kv "tree"
+  let now0 := (getI? kv "now").getD 0
+  let ops := splitList (getS kv "ops")
+  let cb := getS kv "cb" == "1"
+  match hparseTree (treeS.length + 1) treeS.toList with
+  | some (t, []) =>
+    let d := t.depth
+    let calls := mkCalls now0 ops now0
+    match hbuild now0 d t with
+    | .error e => ("P:" ++ e, if impl == "P:" ++ e then "ok" else s!"fail:panic:build impl={impl.take 60}")
+    | .ok s =>
+      let m := showRun now0 ops (seqRun (hlvlOps d) s calls) cb
+      let verdict :=
+        if impl == m then "ok"
+        else if decreasing (nTimes now0 (impl.splitOn ";")) && !decreasing (nTimes now0 (m.splitOn ";")) then
+          s!"fail:order:times returned to the caller decrease; spec={m.take 120}"
+        else s!"fail:{firstDiff (impl.splitOn ";") (m.splitOn ";")}"
+      (m, verdict)
+  | _ => ("-", "fail:driver:unparsable tree")
+
 /-! ### mode=conc: controlled interleavings -/
 open Pandora.Model.C02.Par
 
@@ -280,6 +370,42 @@ def handleConc (kv : List (String × String)) (impl : String) : String × String
         let A0 : Abs := if started then .running (inst (flat t) 0) else .unstarted (flat t)
         (m, judgeLog now0 A0 impl)
   | _, _ => ("-", "fail:driver:unparsable conc input")
+
+/-! ### mode=lconc: controlled interleavings inside ONE leaf (instrumented build: a scheduling point in front of every
+access of the leaf's `Next` / `Left` to shared state).  One release of a caller = one action of `LeafPar.lstep`. -/
+open Pandora.Model.C02.LeafPar in
+def fmtLEv (now0 : Int) : Nat × Int × Out → String
+  | (i, _, .ret (.tok tx ok)) => s!"{i}:N:{fmtT now0 tx}:{if ok then 1 else 0}"
+  | (i, _, .ret (.cnt n)) => s!"{i}:L:{n}"
+  | (i, _, .ret (.panic m)) => s!"{i}:P:{m}"
+  | (i, _, .goto _) => s!"{i}:K"
+
+open Pandora.Model.C02.LeafPar in
+def handleLConc (kv : List (String × String)) (impl : String) : String × String :=
+  let treeS := getS kv "tree"
+  let now0 := (getI? kv "now").getD 0
+  let started := getS kv "start" "1" != "0"
+  let progs := progsOf (getS kv "prog")
+  if impl.startsWith "NOINSTR" then ("-", "skip:no-instrumented-build:" ++ (impl.drop 8).toString) else
+  match parseTree (treeS.length + 1) treeS.toList, parseNats (getS kv "sched") with
+  | some (t, []), some sched =>
+    match t with
+    | .comp _ => ("-", "skip:not-a-leaf")
+    | _ =>
+      match build now0 0 t with
+      | .error e => ("P:" ++ e, "fail:panic:build")
+      | .ok s =>
+        let s1 : Except String Leaf := if started then leafOps.start s 0 else .ok s
+        match s1 with
+        | .error e => ("P:" ++ e, "fail:panic:start")
+        | .ok s1 =>
+          let st := lrun leafOps (linit s1 progs) (sched.map fun i => (i, now0))
+          let nOps := progs.foldl (fun a p => a + p.length) 0
+          let st := ldrain leafOps now0 (4 * nOps + 16) st
+          let m := ";".intercalate (st.log.reverse.map (fmtLEv now0))
+          let A0 : Abs := if started then .running (inst (flat t) 0) else .unstarted (flat t)
+          (m, judgeLog now0 A0 impl)
+  | _, _ => ("-", "fail:driver:unparsable lconc input")
 
 /-! ### mode=stress: free-running goroutines; every result must be explained by the atomic flat spec
 
@@ -499,13 +625,18 @@ def handle : Handler := fun input impl =>
   -- a call that never returned (the harness gave up waiting: a lock that is not released, a lost wake-up)
   if impl == "HANG" || impl.endsWith ":HANG" then ("-", "fail:hang:a Next/Left/Start call did not return (deadlock)") else
   match getS kv "mode" "seq" with
-  | "seq" => handleSeq kv impl
+  | "seq" => if getS kv "huge" == "1" then handleHuge kv impl else handleSeq kv impl
   | "conc" => handleConc kv impl
   | "stress" => handleStress kv impl
   | "cbconc" => handleCbConc kv impl
   -- nested composites, scheduling points of every level active: judged like a free run (`#W:k` = how often a
   -- released caller was seen waiting for a lock; coverage information only)
   | "nconc" => handleStress kv ((impl.splitOn "#W:").headD impl)
+  | "lconc" => handleLConc kv impl
+  -- composites in the instrumented build (points of the composites and of the leaves active): judged like a free run
+  | "lnconc" =>
+    if impl.startsWith "NOINSTR" then ("-", "skip:no-instrumented-build:" ++ (impl.drop 8).toString)
+    else handleStress kv ((impl.splitOn "#W:").headD impl)
   | _ => ("-", "skip:mode")
 
 end Pandora.Drv.C02
